@@ -129,3 +129,85 @@ package atree
 //@ extern bytes.Buffer.Reset()
 //@   ghostdef wc == upd(old(wc), iface(recv), 0)
 //@   modifies ghost.wc
+
+//@ # ---- map side
+//@ # EncodeBytes writes a byte-string head (1 byte for lengths below 24) and the bytes
+//@ extern cbor.StreamEncoder.EncodeBytes(b) (err)
+//@   ghostdef err == nil && len(b) < 24 ==> wc == upd(old(wc), sinkOf(recv), old(wc)[sinkOf(recv)] + 1 + len(b))
+//@   ghostdef err != nil ==> (forall w ref :: w != sinkOf(recv) ==> wc[w] == old(wc)[w])
+//@   modifies ghost.wc, alloc
+
+//@ # a reference: 2 (tag) + 1 (byte-string head) + 16 (slab id) = 19 bytes, which is what it reports
+//@ func (v SlabIDStorable) Encode(enc) (err)  serves C06
+//@   requires encWF(enc)
+//@   ensures[C06] err == nil ==> wc == upd(old(wc), enc.Writer, old(wc)[enc.Writer] + 19)
+//@   ensures err != nil ==> (forall w ref :: w != enc.Writer ==> wc[w] == old(wc)[w])
+//@   modifies Encoder.Scratch, ghost.wc, alloc
+//@ func (v SlabIDStorable) ByteSize() (n)  serves C06
+//@   ensures n == 19
+//@   pure
+
+//@ iface element.Encode(enc) (err)
+//@   ghostdef err == nil ==> wc == upd(old(wc), enc.Writer, old(wc)[enc.Writer] + old(esz(recv)))
+//@   ghostdef err != nil ==> (forall w ref :: w != enc.Writer ==> wc[w] == old(wc)[w])
+//@   modifies Encoder.Scratch, Encoder._inlinedExtraData, InlinedExtraData.*, ghost.wc, alloc
+
+//@ iface elements.Encode(enc) (err)
+//@   ghostdef err == nil ==> wc == upd(old(wc), enc.Writer, old(wc)[enc.Writer] + old(elsSize(recv)))
+//@   ghostdef err != nil ==> (forall w ref :: w != enc.Writer ==> wc[w] == old(wc)[w])
+//@   modifies Encoder.Scratch, Encoder._inlinedExtraData, InlinedExtraData.*, ghost.wc, alloc
+
+//@ # plain element: 1 (array head) + key + value = the size it reports
+//@ func (e *singleElement) Encode(enc) (err)  serves C06
+//@   requires encWF(enc) && e.key != nil && e.value != nil
+//@   ensures[C06] err == nil ==> wc == upd(old(wc), enc.Writer, old(wc)[enc.Writer] + 1 + bs(e.key) + bs(e.value))
+//@   ensures err != nil ==> (forall w ref :: w != enc.Writer ==> wc[w] == old(wc)[w])
+//@   modifies Encoder._inlinedExtraData, InlinedExtraData.*, ghost.wc, alloc
+
+//@ # inline group: 2 (tag) + nested list
+//@ func (e *inlineCollisionGroup) Encode(enc) (err)  serves C06
+//@   requires encWF(enc) && e.elements != nil
+//@   ensures[C06] err == nil ==> wc == upd(old(wc), enc.Writer, old(wc)[enc.Writer] + 2 + old(elsSize(e.elements)))
+//@   ensures err != nil ==> (forall w ref :: w != enc.Writer ==> wc[w] == old(wc)[w])
+//@   modifies Encoder.Scratch, Encoder._inlinedExtraData, InlinedExtraData.*, ghost.wc, alloc
+
+//@ # external group: 2 (tag) + reference
+//@ func (e *externalCollisionGroup) Encode(enc) (err)  serves C06
+//@   requires encWF(enc)
+//@   ensures[C06] err == nil ==> wc == upd(old(wc), enc.Writer, old(wc)[enc.Writer] + 2 + 19)
+//@   ensures err != nil ==> (forall w ref :: w != enc.Writer ==> wc[w] == old(wc)[w])
+//@   modifies Encoder.Scratch, ghost.wc, alloc
+
+//@ # digest-sorted list: 5 (head, level, byte-string head) + 8 per digest + 3 (array head) + elements = 8 + 8n + sum = reported size
+//@ func (e *hkeyElements) Encode(enc) (err)  serves C06
+//@   requires encWF(enc) && hkShape(e) && hkPos(e) && len(e.hkeys) <= 8000
+//@   ensures[C06] err == nil ==> wc == upd(old(wc), enc.Writer, old(wc)[enc.Writer] + 8 + 8 * len(e.hkeys) + sum(esz, e.elems, len(e.elems)))
+//@   ensures err != nil ==> (forall w ref :: w != enc.Writer ==> wc[w] == old(wc)[w])
+//@   modifies Encoder.Scratch, Encoder._inlinedExtraData, InlinedExtraData.*, ghost.wc, alloc
+//@   loop 1: invariant 0 <= i && i <= len(e.hkeys) && wc == upd(old(wc), enc.Writer, old(wc)[enc.Writer] + 5 + 8 * i)
+//@   loop 2: invariant 0 <= i && i <= len(e.elems) && wc[enc.Writer] == old(wc)[enc.Writer] + 8 + 8 * len(e.hkeys) + sum(esz, e.elems, i)
+//@   loop 2: invariant (forall w ref :: w != enc.Writer ==> wc[w] == old(wc)[w])
+//@   loop 2: invariant heapeq(singleElement.size) && heapeq(hkeyElements.size) && heapeq(singleElements.size) && heapeq(inlineCollisionGroup.elements) && heapeq(externalCollisionGroup.size)
+
+//@ # last-level list: 6 + elements
+//@ func (e *singleElements) Encode(enc) (err)  serves C06
+//@   requires encWF(enc) && wfSEs(e) && len(e.elems) <= 65535 && (forall k :: 0 <= k && k < len(e.elems) ==> e.elems[k].key != nil && e.elems[k].value != nil &&
+//@        e.elems[k].size == 1 + bs(e.elems[k].key) + bs(e.elems[k].value))
+//@   ensures[C06] err == nil ==> wc == upd(old(wc), enc.Writer, old(wc)[enc.Writer] + 6 + sum(ssz, e.elems, len(e.elems)))
+//@   ensures err != nil ==> (forall w ref :: w != enc.Writer ==> wc[w] == old(wc)[w])
+//@   modifies Encoder.Scratch, Encoder._inlinedExtraData, InlinedExtraData.*, ghost.wc, alloc
+//@   loop 1: invariant 0 <= i && i <= len(e.elems) && wc == upd(old(wc), enc.Writer, old(wc)[enc.Writer] + 6 + sum(ssz, e.elems, i))
+
+//@ func (m *MapDataSlab) encodeElements(enc) (err)  serves C06
+//@   requires encWF(enc) && m.elements != nil
+//@   ensures[C06] err == nil ==> wc == upd(old(wc), enc.Writer, old(wc)[enc.Writer] + old(elsSize(m.elements)))
+//@   ensures err != nil ==> (forall w ref :: w != enc.Writer ==> wc[w] == old(wc)[w])
+//@   modifies Encoder.Scratch, Encoder._inlinedExtraData, InlinedExtraData.*, ghost.wc, alloc
+
+//@ # standalone map leaf: 2 (head) + [16 sibling link] + element list; reported size = prefix (2 root / 18 otherwise) + element list
+//@ func (m *MapDataSlab) Encode@bytes(enc) (err)  serves C06
+//@   requires encWF(enc) && enc.encMode != nil && !m.inlined && m.elements != nil
+//@   requires m.header.size == ite(m.extraData != nil, 2, 18) + elsSize(m.elements)
+//@   assume m.extraData != nil ==> m.next == SlabIDUndefined because "tree invariant: a root leaf has no sibling (C02)"
+//@   ensures[C06] err == nil ==> written(enc) == m.header.size - ite(m.extraData == nil && m.next == SlabIDUndefined, 16, 0)
+//@   modifies heap, ghost.wc, ghost.xbytes, alloc
